@@ -918,11 +918,16 @@ class Twist3(SMTwist):
 
         if base.isscalar(theta):
             # theta is a scalar
-            return SE3(base.trexp(self.S * theta))
+            if len(self) == 1:
+                return SE3(base.trexp(self.S * theta))
+            else:
+                return SE3([base.trexp(S * theta) for S in self.data])
         else:
             # theta is a vector
             if len(self) == 1:
                 return SE3([base.trexp(self.S * t) for t in theta])
+            elif len(theta) == 1:
+                return SE3([base.trexp(S * theta[0]) for S in self.data])
             elif len(self) == len(theta):
                 return SE3([base.trexp(S * t) for S, t in zip(self.data, theta)])
             else:
@@ -1393,9 +1398,20 @@ class Twist2(SMTwist):
             theta = base.getunit(theta, units)
 
         if base.isscalar(theta):
-            return SE2(base.trexp2(self.S * theta))
+            if len(self) == 1:
+                return SE2(base.trexp2(self.S * theta))
+            else:
+                return SE2([base.trexp2(S * theta) for S in self.data])
         else:
-            return SE2([base.trexp2(self.S * t) for t in theta])
+            # theta is a vector
+            if len(self) == 1:
+                return SE2([base.trexp2(self.S * t) for t in theta])
+            elif len(theta) == 1:
+                return SE2([base.trexp2(S * theta[0]) for S in self.data])
+            elif len(self) == len(theta):
+                return SE2([base.trexp2(S * t) for S, t in zip(self.data, theta)])
+            else:
+                raise ValueError('length of twist and theta not consistent')
 
     @property
     def unit(self):
